@@ -3,10 +3,14 @@ from lib_expr import *
 EXPLANATION = ('TemplateCore::evaluateExpression (operator dispatch) with the real QExpression typed operators inlined is enforced, operator by operator, '
                'over all operand kinds and all 64-bit payloads (loop-free, full domain) against a table written from the documented semantics.')
 TRUSTED = ['TemplateCore is instantiated with a verification value type (QV::GValue) whose members are cut; isEqual (textual ==/!=) is a cut callee']
-ASSUMPTIONS = ['natural operands of comparisons / remainder stay below 2^63 (documented unsigned-to-signed promotion)',
+ASSUMPTIONS = ['the precedence-table job is a supporting static fact read off the clang AST, not a CBMC obligation; TemplateCore::evaluate (the climbing loop itself) is not under contract',
+               'natural operands of comparisons / remainder stay below 2^63 (documented unsigned-to-signed promotion)',
                'IEEE operations are compared with the same IEEE operation (bit-precise in CBMC): promotion and routing are what is decided',
                'precedence climbing (evaluate), operand parsing and operator recognition are not under contract yet']
 
 
 def jobs(tier):
-    return arith_jobs()
+    out = arith_jobs()
+    out.append(dict(name='precedence-table.static', unit=UNIT, fn='-', roots=[], specs={}, mode='static', static_fn=precedence_fact, canary=False, bounded='supporting static fact on the clang AST (not a CBMC obligation)',
+                    clause='supporting static fact: the operator rank table (QOperation enumerator order) matches the documented precedence groups'))
+    return out
